@@ -6,7 +6,7 @@ generated, shrunk, stored and replayed without a PRNG.  Tagged forms:
   {"$ref": h}                     object created earlier under handle h
   {"$dt": iso, "tz": null|minutes|"Zone/Name"}   datetime (naive / fixed offset / zoneinfo)
   {"$enum": [EnumClass, MEMBER]}  member of dliswriter.enums.<EnumClass>
-  {"$bytes": hex} {"$bytearray": hex} {"$tuple": [...]}
+  {"$bytes": hex} {"$bytearray": hex} {"$tuple": [...]} {"$text": str (a new str object each time, not a literal)}
   {"$setup": {"value":..,"units":..}}   dliswriter.AttrSetup
   {"$dict": {...}}                plain dict (values decoded)
   {..., "$share": key}            any of the above: the SAME object is handed over wherever the key recurs (caller reuses an object)
@@ -138,6 +138,9 @@ class Codec:
         if '$enum' in v:
             from dliswriter import enums
             return getattr(getattr(enums, v['$enum'][0]), v['$enum'][1])
+        if '$text' in v:
+            # text the caller built at run time (read from a report, formatted): a NEW str object at every hand-over, not a literal
+            return ''.join(list(v['$text']))
         if '$bytes' in v:
             return bytes.fromhex(v['$bytes'])
         if '$bytearray' in v:
